@@ -5,10 +5,21 @@ import concurrent.futures
 import os
 import random
 import re
+import time
 
 import vlib
 
 TEMPLATE = "--template={file}:{line}:{id}"
+
+
+def run_cppcheck(args, cwd, timeout):
+    """vlib.run_cppcheck, retried while the shared binary is being relinked by a concurrent build."""
+    for attempt in range(8):
+        try:
+            return vlib.run_cppcheck(args, cwd=cwd, timeout=timeout)
+        except OSError:
+            time.sleep(3)
+    raise vlib.InfraError("cannot execute %s" % vlib.cppcheck_bin())
 
 
 # ----------------------------------------------------------------------------------------- <valid> cases
@@ -118,7 +129,7 @@ def run_e2e_chunk(cases, work, tag, lang):
         f.write(render_cfg(cases))
     with open(os.path.join(d, src), "w") as f:
         f.write(text)
-    rc, out, err = vlib.run_cppcheck(["-q", "--library=user.cfg", TEMPLATE, src], cwd=d, timeout=1800)
+    rc, out, err = run_cppcheck(["-q", "--library=user.cfg", TEMPLATE, src], cwd=d, timeout=1800)
     if rc is None:
         raise vlib.InfraError("cppcheck timed out on generated source %s" % d)
     found = parse_findings(err + "\n" + out, src)
@@ -207,7 +218,7 @@ def run_flags(cases, work):
             f.write(render_flags_cfg(sel))
         with open(os.path.join(d, src), "w") as f:
             f.write(text)
-        rc, out, err = vlib.run_cppcheck(["-q", "--library=user.cfg", TEMPLATE, src], cwd=d, timeout=600)
+        rc, out, err = run_cppcheck(["-q", "--library=user.cfg", TEMPLATE, src], cwd=d, timeout=600)
         if rc is None:
             raise vlib.InfraError("cppcheck timed out on the not-null/not-bool source")
         found = parse_findings(err + "\n" + out, src)
@@ -416,7 +427,7 @@ def run_loads(inputs, work, jobs=4, also_unmutated=()):
         p = os.path.join(d, name)
         with open(p, "wb") as f:
             f.write(text.encode("utf-8", "surrogateescape"))
-        rc, out, err = vlib.run_cppcheck(["-q", "--library=" + p, "empty.c"], cwd=d, timeout=120)
+        rc, out, err = run_cppcheck(["-q", "--library=" + p, "empty.c"], cwd=d, timeout=120)
         allout = out + err
         os.unlink(p)
         return {"name": name, "kind": kind, "rc": -1 if (rc is None or rc < 0) else rc, "signal": -rc if (rc is not None and rc < 0) else 0,
